@@ -1,5 +1,7 @@
 open Datatypes
 
+val hd_error : 'a1 list -> 'a1 option
+
 val tl : 'a1 list -> 'a1 list
 
 val nth : nat -> 'a1 list -> 'a1 -> 'a1
